@@ -8,11 +8,14 @@ singleton existed (DESIGN F1, confirmed on the real server: signature `stale-aft
 
   * `C21_maps`, `C21_effective`: for every history the server's maps denote the same effective
     contents as a freshly started server given the final disk and the final open buffers.
-  * `C21_statement`: the property itself — what the running server *answers from* equals that.
-    False on the unchanged code: `C21_witness_stale_after_first_open`.
-  * `C21_partial`: it holds for every history in which no request is answered before the first
-    buffer notification; `C21_stale_characterised` says what the defect can do otherwise: a
-    stale path is answered from its disk text instead of its open buffer, nothing else.
+  * `C21_statement tracked`: the property itself — what the running server *answers from* equals
+    that.  `C21`: it holds for every history when pico tracks reads of absent singletons
+    (`tracked = true`; whether the current pico does is regenerated into Gen/LspPicoFacts.lean).
+    Without that (`tracked = false`, the original code) it is false:
+    `C21_witness_stale_after_first_open`.
+  * `C21_partial`: even then it holds for every history in which no request is answered before
+    the first buffer notification; `C21_stale_characterised` says what the defect can do
+    otherwise: a stale path is answered from its disk text instead of its open buffer.
 That every answer (diagnostics, tokens, formatting, hover, go-to-definition) is a function of the
 contents the server answers from is the memoisation property C01 plus determinism of the compiler;
 here it is tied by correspondence (every answer compared with a fresh real server after each step).
@@ -26,29 +29,33 @@ open IsoVerif.Util IsoVerif.LspState IsoVerif.Lemmas.LspState
 def world (d0 : FMap) (hist : List Op) : St := runOps ⟨d0, []⟩ hist
 
 /-- The handlers keep the server's maps equal (as maps) to the world's. -/
-theorem C21_maps (d0 : FMap) (hist : List Op) (p : Path) :
-    (srvRun (start d0) hist).st.disk.get p = (world d0 hist).disk.get p ∧
-    (srvRun (start d0) hist).st.bufs.get p = (world d0 hist).bufs.get p :=
-  srv_maps d0 hist p
+theorem C21_maps (tracked : Bool) (d0 : FMap) (hist : List Op) (p : Path) :
+    (srvRun tracked (start d0) hist).st.disk.get p = (world d0 hist).disk.get p ∧
+    (srvRun tracked (start d0) hist).st.bufs.get p = (world d0 hist).bufs.get p :=
+  srv_maps tracked d0 hist p
 
 /-- Effective contents of the server state = those of a fresh server on the final disk and the
 final open buffers. -/
-theorem C21_effective (d0 : FMap) (hist : List Op) (p : Path) :
-    effective (srvRun (start d0) hist).st p =
+theorem C21_effective (tracked : Bool) (d0 : FMap) (hist : List Op) (p : Path) :
+    effective (srvRun tracked (start d0) hist).st p =
       effective (fresh (world d0 hist).disk (world d0 hist).bufs) p :=
-  srv_effective d0 hist p
+  srv_effective tracked d0 hist p
 
 /-- The property: what the running server answers from is what a fresh server answers from. -/
-def C21_statement (d0 : FMap) (hist : List Op) : Prop :=
-  ∀ p, observed (srvRun (start d0) hist) p =
+def C21_statement (tracked : Bool) (d0 : FMap) (hist : List Op) : Prop :=
+  ∀ p, observed (srvRun tracked (start d0) hist) p =
     effective (fresh (world d0 hist).disk (world d0 hist).bufs) p
+
+/-- **C21**, for every history, when reads of absent singletons are tracked. -/
+theorem C21 (d0 : FMap) (hist : List Op) : C21_statement true d0 hist :=
+  srv_observed_of_tracked d0 hist
 
 def witnessDisk : FMap := [("src/a.ts", some (strBytes "iso(`entrypoint Query.A`)"))]
 def witnessHist : List Op := [.check, .didOpen "src/a.ts" (strBytes "iso(`entrypoint Query.B`)")]
 
-/-- Diagnostics are computed once, then the file is opened with other text: the server keeps
-answering from the disk text. -/
-theorem C21_witness_stale_after_first_open : ¬ C21_statement witnessDisk witnessHist := by
+/-- Without the tracking: diagnostics are computed once, then the file is opened with other text:
+the server keeps answering from the disk text. -/
+theorem C21_witness_stale_after_first_open : ¬ C21_statement false witnessDisk witnessHist := by
   intro h
   have := h "src/a.ts"
   revert this
@@ -56,9 +63,9 @@ theorem C21_witness_stale_after_first_open : ¬ C21_statement witnessDisk witnes
 
 /- `noCheckBeforeBufferOp hist`: every request comes after the first buffer notification
 (defined in Lemmas/LspState.lean). -/
-theorem C21_partial (d0 : FMap) (hist : List Op) (h : noCheckBeforeBufferOp hist = true) :
-    C21_statement d0 hist :=
-  srv_observed_of_no_early_check d0 hist h
+theorem C21_partial (tracked : Bool) (d0 : FMap) (hist : List Op)
+    (h : noCheckBeforeBufferOp hist = true) : C21_statement tracked d0 hist :=
+  srv_observed_of_no_early_check tracked d0 hist h
 
 example : noCheckBeforeBufferOp
     [.diskWrite "src/b.ts" [1], .didOpen "src/a.ts" [2], .check, .didChange "src/a.ts" [3], .check]
@@ -66,11 +73,12 @@ example : noCheckBeforeBufferOp
 
 /-- What the defect can do: a wrong answer source is always "the disk text of a file that has an
 open buffer", for a path memoised before the first buffer notification. -/
-theorem C21_stale_characterised (d0 : FMap) (hist : List Op) (p : Path)
-    (h : observed (srvRun (start d0) hist) p ≠ effective (srvRun (start d0) hist).st p) :
-    (srvRun (start d0) hist).stale.contains p = true ∧
-      ((srvRun (start d0) hist).st.bufs.get p).isSome = true ∧
-      observed (srvRun (start d0) hist) p = (srvRun (start d0) hist).st.disk.get p :=
-  srv_stale_characterised d0 hist p h
+theorem C21_stale_characterised (tracked : Bool) (d0 : FMap) (hist : List Op) (p : Path)
+    (h : observed (srvRun tracked (start d0) hist) p ≠
+      effective (srvRun tracked (start d0) hist).st p) :
+    (srvRun tracked (start d0) hist).stale.contains p = true ∧
+      ((srvRun tracked (start d0) hist).st.bufs.get p).isSome = true ∧
+      observed (srvRun tracked (start d0) hist) p = (srvRun tracked (start d0) hist).st.disk.get p :=
+  srv_stale_characterised tracked d0 hist p h
 
 end IsoVerif.Props.C21
